@@ -7,6 +7,7 @@ import (
 	"fmt"
 	"go/types"
 	"hash/crc32"
+	"math"
 	"strconv"
 	"strings"
 
@@ -412,6 +413,42 @@ func init() {
 			return in.strConst(strconv.FormatUint(t.v, int(b.v)))
 		},
 
+		"strconv.ParseFloat": func(in *Interp, fr *frame, fn *ssa.Function, a []Value) Value {
+			s, ok := a[0].(StrV).concrete()
+			bs := term(a[1])
+			if !ok || !bs.IsConst() {
+				unsupp("strconv.ParseFloat of symbolic string")
+			}
+			f, err := strconv.ParseFloat(s, int(bs.v))
+			if err != nil {
+				in.nextObj++
+				return TupleV{in.tb.BV(64, math.Float64bits(f)), IfaceV{t: errValType, v: &ErrV{id: in.nextObj, msg: err.Error()}}}
+			}
+			return TupleV{in.tb.BV(64, math.Float64bits(f)), IfaceV{}}
+		},
+
+		"strconv.AppendQuote": func(in *Interp, fr *frame, fn *ssa.Function, a []Value) Value {
+			s, ok := a[1].(StrV).concrete()
+			if !ok {
+				unsupp("strconv.AppendQuote of symbolic string")
+			}
+			var vs []Value
+			for _, t := range in.byteTerms(a[0]) {
+				vs = append(vs, t)
+			}
+			for _, c := range []byte(strconv.Quote(s)) {
+				vs = append(vs, in.tb.BV(8, uint64(c)))
+			}
+			return in.sliceFromValues(vs)
+		},
+		"strconv.Quote": func(in *Interp, fr *frame, fn *ssa.Function, a []Value) Value {
+			s, ok := a[0].(StrV).concrete()
+			if !ok {
+				unsupp("strconv.Quote of symbolic string")
+			}
+			return in.strConst(strconv.Quote(s))
+		},
+
 		"sort.Slice":       stubSortSlice,
 		"sort.SliceStable": stubSortSlice,
 
@@ -429,10 +466,10 @@ func init() {
 			return IfaceV{t: hashObjType, v: &HashObj{kind: "crc32", tab: a[0]}}
 		},
 		"github.com/cespare/xxhash/v2.Sum64": func(in *Interp, fr *frame, fn *ssa.Function, a []Value) Value {
-			return in.tb.UF("xxhash64", 64, in.byteTerms(a[0])...)
+			return in.xxhOf(in.byteTerms(a[0]))
 		},
 		"github.com/cespare/xxhash/v2.Sum64String": func(in *Interp, fr *frame, fn *ssa.Function, a []Value) Value {
-			return in.tb.UF("xxhash64", 64, a[0].(StrV).b...)
+			return in.xxhOf(a[0].(StrV).b)
 		},
 
 		"internal/bytealg.IndexByte": func(in *Interp, fr *frame, fn *ssa.Function, a []Value) Value {
@@ -795,4 +832,17 @@ func stubSortSlice(in *Interp, fr *frame, fn *ssa.Function, a []Value) Value {
 		}
 	}
 	return nil
+}
+
+// xxhOf is the xxhash stub: the real hash when every byte is concrete, otherwise an uninterpreted
+// function of the exact byte sequence.
+func (in *Interp) xxhOf(bs []*Term) *Term {
+	raw := make([]byte, len(bs))
+	for i, b := range bs {
+		if !b.IsConst() {
+			return in.tb.UF("xxhash64", 64, bs...)
+		}
+		raw[i] = byte(b.v)
+	}
+	return in.tb.BV(64, xxh64(raw))
 }
